@@ -63,6 +63,25 @@ def run(tier):
             a, b = case(rec, cfg, agent, s, op)
             runs.append((a, b, dict(s=s, op=op, cls=t["cls"])))
             chk.case((bytes(s).hex(), op), nontrivial=46 in s)
+    # rendering inside walks: rows whose names differ in the last sub-identifier only (a getbulk reply is rendered by one iterator),
+    # asked for under text bases with the same arcs; last arcs on both sides of every base-128 length step
+    from checks import c02
+    k = 0
+    for start in (1, 126, 127, 128, 200, 1000, 16382, 16383, 16384, 2097150, 268435454, 4294967290):
+        for depth2 in (1, 2):
+            k += 1
+            base = c02.BASE + [8] * depth2
+            lay = [(base + [start + j], ("int", j)) for j in range(6)]
+            first = rec.n
+            sess = rawdrv.RawSession(rec, cfg)
+            w, exc = sess.send("getbulk", [".".join(str(x) for x in base)], maxrep=10)
+            if w is not None:
+                req = ag.Request(cfg, w)
+                sess.inject(agent.reply(cfg, req, lay))
+                sess.recv("getbulk")
+            sess.close()
+            runs.append((first, rec.n, dict(s=list((".".join(str(x) for x in base) + ".%d.." % start).encode()), op="getbulk-rows", cls=0)))
+            chk.case(("rows", start, depth2))
     rec.close()
     print("  %d cases, %d events" % (len(runs), rec.n), flush=True)
     v = trace.validate_parallel("TraceSession.tla", "TraceSession.cfg", rec.events, [(a, b) for a, b, _ in runs], k=12, name="c08")
